@@ -903,7 +903,52 @@ def stress(w, mod: Any, gates: Gates, rounds: int, n_threads: int) -> None:
     w.case(("stress", w.shard))
 
 
+def run_import_orders(w) -> None:
+    """Child processes (vkit/c12_child.py) import icontract before / after asyncio, or import asyncio only inside the coroutine
+    that needs it: a call made in a task while another call on the same object / function is in flight in the task that spawned
+    it must get the verdict it gets alone, whatever the import order of the application."""
+    import json  # pylint: disable=import-outside-toplevel
+    import os  # pylint: disable=import-outside-toplevel
+    import subprocess  # pylint: disable=import-outside-toplevel
+
+    from vkit import core  # pylint: disable=import-outside-toplevel
+
+    child = os.path.join(core.VERIF_DIR, "vkit", "c12_child.py")
+    for order in ("icontract-first", "asyncio-first", "asyncio-inside-main"):
+        env = dict(os.environ, PYTHONPATH=core.VERIF_DIR)
+        try:
+            res = subprocess.run([core.PYTHON, child, core.REPO, order], capture_output=True, text=True, env=env, timeout=120, cwd=w.scratch())
+        except subprocess.TimeoutExpired:
+            w.mark_inconclusive("import-order child {} hit the watchdog".format(order))
+            continue
+        line = [ln for ln in res.stdout.splitlines() if ln.startswith("REPORT=")]
+        if res.returncode != 0 or not line:
+            w.violation("C12/import-order-child-crashed", "import order {}: exit {}: {}".format(order, res.returncode, res.stderr[-600:]),
+                        {"import_order": order})
+            continue
+        rep = json.loads(line[0][len("REPORT="):])
+        w.count("import_order_children")
+        w.distinct("import_orders", (order, rep["asyncio_loaded_before_icontract"], rep["asyncio_loaded_by_icontract"]))
+        verdicts = rep["verdicts"]
+        for label, verdict in sorted(verdicts.items()):
+            alone = verdicts[label.split(":")[0] + ":alone"]
+            w.count("calls_judged")
+            w.case(("import-order", order, label))
+            if label.endswith(":alone"):
+                if verdict != "ViolationError":
+                    w.violation("C12/import-order-child-crashed", "import order {}: the call made alone gave {}".format(order, verdict), {"import_order": order})
+                continue
+            w.count("calls_overlapping_with_another")
+            if verdict != alone:
+                w.violation("C12/verdict-depends-on-call-in-flight-under-import-order", "asyncio {} icontract: {} gave {!r}, the same call "
+                            "made alone gives {!r}".format({"icontract-first": "imported after", "asyncio-first": "imported before",
+                                                            "asyncio-inside-main": "imported only inside the coroutines, after"}[order],
+                                                           label, verdict, alone), {"import_order": order})
+
+
 def run(w) -> None:
+    if w.shard == 3 % w.nshards and __import__("os").environ.get("VERIF_C12_PART") in (None, "imports"):
+        run_import_orders(w)
     gates = Gates()
     loaded = prog.load_source(SOURCE, w.scratch(), extra_globals={"GATES": gates})
     mod = loaded.module
@@ -925,6 +970,9 @@ def run(w) -> None:
 
 
 def replay(case, w) -> None:
+    if "import_order" in case:
+        run_import_orders(w)
+        return
     gates = Gates()
     loaded = prog.load_source(SOURCE, w.scratch(), extra_globals={"GATES": gates})
     mod = loaded.module
